@@ -204,7 +204,7 @@ theorem px_all (G : GCtx) : ∀ (n : Nat), (∀ m, m ≤ n → PE G m) → PX G 
       | ok bv =>
         obtain ⟨hfr1, mem1, ob, hrun1, hml1⟩ := h1
         simp only []
-        have hsp1 := hsp.world st1 hfr1
+        have hsp1 := hsp.world st1 hfr1 hrun1.inv
         have hrel1 : StRel G.mod A.T A.N A.σ G.lim A.mp scopes vm st1.scopes mem1 := by
           rw [hfr1]; exact hrel.memLe hml1.cells
         have h2 := ihn A hA i st1 (ip + nI CB.1) (⟨bv, ob⟩ :: stk) mem1 CB.2 scopes vm hi hwi hTi (hCI ▸ hpI) hrel1 hsp1
@@ -334,7 +334,7 @@ theorem px_all (G : GCtx) : ∀ (n : Nat), (∀ m, m ≤ n → PE G m) → PX G 
       | ok a =>
         obtain ⟨hfr1, mem1, oa, hrun1, hml1⟩ := h1
         simp only []
-        have hsp1 := hsp.world st1 hfr1
+        have hsp1 := hsp.world st1 hfr1 hrun1.inv
         have hrel1 : StRel G.mod A.T A.N A.σ G.lim A.mp scopes vm st1.scopes mem1 := by
           rw [hfr1]; exact hrel.memLe hml1.cells
         have h2 := ihn A hA r st1 (ip + nI CA.1) (⟨a, oa⟩ :: stk) mem1 CA.2 scopes vm hr hwr hTr (hCB ▸ hpB)
